@@ -163,6 +163,9 @@ class World:
         self.pool._loop = self.loop
         self.violations = []
         self.ever_lent = set()   # connection ids handed to a client since they were opened
+        # connection ids whose last release() happened while the pool was in
+        # Mode D and another block had requests waiting and no connection
+        self.released_past_starved = set()
 
     def close(self):
         time.monotonic, self.P.config.CONNECT_FAILURE_RETRIES = self._saved
@@ -257,6 +260,12 @@ class World:
             self.pc[c] = 'idle'
             if discard:
                 self.broken.add(conn.id)
+            self.released_past_starved.discard(conn.id)
+            if getattr(self.pool, '_is_starving', False) and any(
+                    b.count_waiters() and not b.count_conns()
+                    and not b.suppressed
+                    for d, b in self.pool._blocks.items() if d != self.cdb[c]):
+                self.released_past_starved.add(conn.id)
             asyncio.events._set_running_loop(self.loop)
             try:
                 self.pool.release(self.cdb[c], conn, discard=discard)
@@ -271,6 +280,7 @@ class World:
                 self.nid = next(i for i in range(1, 10**6) if i not in self.open)
                 conn = Conn(self.nid, db)
                 self.ever_lent.discard(conn.id)
+                self.released_past_starved.discard(conn.id)
                 self.open[conn.id] = conn
                 fut.set_result(conn)
             else:
